@@ -18,6 +18,14 @@ def gen(chk, mdl):
     refs += ["../../../g", "../../../../g/h", "../../..", "../.././../g", "x/../../../../g", "../../x/../../g?q#f", "../../../../..", "a/../../../.."]
     return refs, sorted(set(bases))
 
+def degenerate_pairs(mdl):
+    """references in which every component is absent / present but empty / non-empty, against bases with and without (empty) query
+    and fragment: RFC 3986 5.2.2 tells "?" (empty query) from "" (the base's query), "#" from no fragment, "//" from no authority"""
+    refs = [t for t in uris.degenerate_texts() if not any(x in t for x in ("[", "1.2.3.4", "//:8", "u:p"))]
+    refs = uris.valid_texts(mdl, refs)
+    bases = ["s://h/a/b?q#f", "s://h/a/b?", "s://h/a/b", "s://h?q", "s://h", "s:/a?q", "s:a?q", "s:?q", "s:", "s://u@h:8/a?q", "s:///a?q#", "s://h/?#"]
+    return [(r, b) for b in bases for r in refs]
+
 def run(chk):
     proofs = lib.check_proofs(PID)
     exes = lib.build_impl(); mdl = lib.build_model()
@@ -28,9 +36,11 @@ def run(chk):
     if chk.tier == "quick" and len(pairs) > 70000:
         deep = [(r, b) for (r, b) in pairs if r.count("..") >= 3 and b.count("/") >= 4]
         pairs = chk.rng.sample(pairs, 70000) + deep
+    pairs += degenerate_pairs(mdl)
     # slot 0 = R, 1 = B, 2 = normalized copy of R; 3 = N(resolve(N(R),B)); 4 = N(resolve(R,B))
     reqs = [H([('p', 0, r), ('p', 1, b), ('p', 2, r), ('n', 2, 63), ('a', 3, 2, 1, 0), ('n', 3, 63), ('a', 4, 0, 1, 0), ('n', 4, 63), ('e', 3, 4)]) for r, b in pairs]
     model = lib.run_lines(mdl, reqs)
+    refs = sorted(set(r for r, _ in pairs))
     spec_n = dict(zip(refs, lib.run_lines(mdl, ["spec_normal " + enc_s(r) for r in refs])))
     nontrivial = set(); corr = []; suspects = []; kind_sus = []
     for fl, stride in {"A": 1, "W": 1, "A_asan": 9, "W_asan": 13}.items():
